@@ -245,7 +245,9 @@ var countKinds = []countKind{
 	}},
 	{"Int8", func(c int64) (value.Value, bool) { return value.Int8(c).ToValue(), c >= -128 && c <= 127 }},
 	{"Int16", func(c int64) (value.Value, bool) { return value.Int16(c).ToValue(), c >= -32768 && c <= 32767 }},
-	{"Int32", func(c int64) (value.Value, bool) { return value.Int32(c).ToValue(), c >= math.MinInt32 && c <= math.MaxInt32 }},
+	{"Int32", func(c int64) (value.Value, bool) {
+		return value.Int32(c).ToValue(), c >= math.MinInt32 && c <= math.MaxInt32
+	}},
 	{"Int64", func(c int64) (value.Value, bool) { return value.Int64(c).ToValue(), true }},
 	{"UInt8", func(c int64) (value.Value, bool) { return value.UInt8(c).ToValue(), c >= 0 && c <= 255 }},
 	{"UInt16", func(c int64) (value.Value, bool) { return value.UInt16(c).ToValue(), c >= 0 && c <= 65535 }},
